@@ -654,6 +654,8 @@ func localErrorDiscipline(c *Ctx, rule string, fn *ssa.Function, errCalls []ssa.
 			r.OK(rule, k, p.Pos(ci.Pos()), fmt.Sprintf("tested against nil (%d test(s)); the %d path(s) on the non-nil side all return a non-nil error or panic", nTests, failing))
 		case c04Returned(ci):
 			r.OK(rule, k, p.Pos(ci.Pos()), "the error is returned to the caller unchanged")
+		case func() bool { some, all := c04ReturnedOn(ci); return some && !all }():
+			r.Bad(rule, k, p.Pos(ci.Pos()), "the error of "+calleeName(ci)+" is never compared with nil and is returned on some paths only: on the paths that go on (a test of another result, a later stage) a non-nil error is lost or overwritten")
 		default:
 			r.Unknown(rule, k, p.Pos(ci.Pos()), "the error of "+calleeName(ci)+" is neither compared with nil nor returned: unrecognised handling idiom")
 		}
@@ -675,11 +677,20 @@ func nonDebugRefs(v ssa.Value) []ssa.Instruction {
 }
 
 // c04Returned: the error component of the call flows (through extract / store to a named result / phi) into a return.
+// c04Returned: the error result of the call flows into a return statement, and every return that can be reached after
+// the call is such a return (an error that is handed back on some paths only, without ever being compared with nil, is
+// lost on the others).
 func c04Returned(ci ssa.CallInstruction) bool {
+	some, all := c04ReturnedOn(ci)
+	return some && all
+}
+
+func c04ReturnedOn(ci ssa.CallInstruction) (some, all bool) {
 	v, ok := ci.(ssa.Value)
 	if !ok {
-		return false
+		return false, false
 	}
+	into := map[*ssa.Return]bool{}
 	seen := map[ssa.Value]bool{}
 	var flows func(x ssa.Value) bool
 	flows = func(x ssa.Value) bool {
@@ -690,21 +701,19 @@ func c04Returned(ci ssa.CallInstruction) bool {
 		for _, ref := range nonDebugRefs(x) {
 			switch y := ref.(type) {
 			case *ssa.Return:
-				return true
+				into[y] = true
 			case *ssa.Extract:
-				if isErrorType(y.Type()) && flows(y) {
-					return true
+				if isErrorType(y.Type()) {
+					flows(y)
 				}
 			case *ssa.Phi:
-				if flows(y) {
-					return true
-				}
+				flows(y)
 			case *ssa.Store:
 				if a, ok := y.Addr.(*ssa.Alloc); ok && y.Val == x {
 					// named result cell: loaded by the return block
 					for _, r2 := range nonDebugRefs(a) {
-						if ld, ok := r2.(*ssa.UnOp); ok && flows(ld) {
-							return true
+						if ld, ok := r2.(*ssa.UnOp); ok {
+							flows(ld)
 						}
 					}
 				}
@@ -712,7 +721,31 @@ func c04Returned(ci ssa.CallInstruction) bool {
 		}
 		return false
 	}
-	return flows(v)
+	flows(v)
+	if len(into) == 0 {
+		return false, false
+	}
+	// every return reachable from the call
+	all = true
+	start := ci.Block()
+	visited := map[*ssa.BasicBlock]bool{}
+	var visit func(b *ssa.BasicBlock)
+	visit = func(b *ssa.BasicBlock) {
+		if visited[b] {
+			return
+		}
+		visited[b] = true
+		for _, ins := range b.Instrs {
+			if ret, ok := ins.(*ssa.Return); ok && !into[ret] {
+				all = false
+			}
+		}
+		for _, s := range b.Succs {
+			visit(s)
+		}
+	}
+	visit(start)
+	return true, all
 }
 
 // avDerivesFromError: the value is computed from the error result of the call (err.Error(), a concatenation or a
